@@ -423,6 +423,7 @@ func monitorAccepted(c *Ctx, tag string, cfg *genesis.GenesisConfig) {
 		return
 	}
 	c.Hit("accepted-ledger:ok")
+	c01AtGenesis(c, tag, cfg)
 	sum := map[types.ZenonTokenStandard]*big.Int{}
 	for _, a := range addrs {
 		for z, v := range bal[a] {
@@ -961,6 +962,55 @@ var perturbations = []perturbation{
 		t.MaxSupply = new(big.Int).Set(t.TotalSupply)
 		return true
 	}},
+	// declared-but-unheld tokens (C01: the supply the token contract records must be what the accounts hold): a token is
+	// added to TokenConfig that no genesis entry holds - mintable or not, TotalSupply zero or not, MaxSupply at / above it
+	{"declare-unheld-mintable-nonzero", true, func(c *Ctx, cfg *genesis.GenesisConfig) bool {
+		return declareUnheld(c, cfg, true, true)
+	}},
+	{"declare-unheld-mintable-zero", true, func(c *Ctx, cfg *genesis.GenesisConfig) bool {
+		return declareUnheld(c, cfg, true, false)
+	}},
+	{"declare-unheld-fixed-nonzero", true, func(c *Ctx, cfg *genesis.GenesisConfig) bool {
+		return declareUnheld(c, cfg, false, true)
+	}},
+	{"declare-unheld-fixed-zero", true, func(c *Ctx, cfg *genesis.GenesisConfig) bool {
+		return declareUnheld(c, cfg, false, false)
+	}},
+	// ... or an existing issued token loses all its holders (its keys are removed from every balance list), the
+	// declaration - mintable or not as generated - stays
+	{"unhold-token", true, func(c *Ctx, cfg *genesis.GenesisConfig) bool {
+		for _, i := range c.R.Perm(len(cfg.TokenConfig.Tokens)) {
+			t := cfg.TokenConfig.Tokens[i]
+			if t.TokenStandard == types.ZnnTokenStandard || t.TokenStandard == types.QsrTokenStandard || t.TotalSupply.Sign() == 0 {
+				continue
+			}
+			for _, b := range cfg.GenesisBlocks.Blocks {
+				delete(b.BalanceList, t.TokenStandard)
+			}
+			if c.R.Intn(2) == 0 {
+				t.IsMintable = !t.IsMintable
+			}
+			return true
+		}
+		return false
+	}},
+	// ... or keeps its holders, who all hold zero
+	{"zero-out-token", true, func(c *Ctx, cfg *genesis.GenesisConfig) bool {
+		for _, i := range c.R.Perm(len(cfg.TokenConfig.Tokens)) {
+			t := cfg.TokenConfig.Tokens[i]
+			if t.TokenStandard == types.ZnnTokenStandard || t.TokenStandard == types.QsrTokenStandard || t.TotalSupply.Sign() == 0 {
+				continue
+			}
+			for _, b := range cfg.GenesisBlocks.Blocks {
+				if _, ok := b.BalanceList[t.TokenStandard]; ok {
+					b.BalanceList[t.TokenStandard] = big.NewInt(0)
+				}
+			}
+			t.IsMintable = c.R.Intn(2) == 0
+			return true
+		}
+		return false
+	}},
 	{"zero-balance-entry", false, func(c *Ctx, cfg *genesis.GenesisConfig) bool {
 		b := cfg.GenesisBlocks.Blocks[2+c.R.Intn(len(cfg.GenesisBlocks.Blocks)-2)]
 		if b.Address == types.SwapContract || b.Address == types.PlasmaContract || b.Address == types.PillarContract {
@@ -975,10 +1025,41 @@ var perturbations = []perturbation{
 	}},
 }
 
+func declareUnheld(c *Ctx, cfg *genesis.GenesisConfig, mintable, nonzero bool) bool {
+	var z types.ZenonTokenStandard
+	c.R.Read(z[:])
+	total := big.NewInt(0)
+	if nonzero {
+		total = []*big.Int{big.NewInt(1), big.NewInt(1000), big.NewInt(1 + c.R.Int63n(1<<40)), new(big.Int).Lsh(big.NewInt(1), uint(64+c.R.Intn(100)))}[c.R.Intn(4)]
+	}
+	max := new(big.Int).Set(total)
+	switch c.R.Intn(3) {
+	case 0:
+		max.Add(max, big.NewInt(1+c.R.Int63n(5000)))
+	case 1:
+		max.Lsh(big.NewInt(1), 200)
+	}
+	if !mintable && c.R.Intn(2) == 0 {
+		max.Set(total)
+	}
+	cfg.TokenConfig.Tokens = append(cfg.TokenConfig.Tokens, &definition.TokenInfo{Owner: randAddr(c, 0), TokenName: "Unheld", TokenSymbol: "UNH", TokenDomain: "x.example",
+		TotalSupply: total, MaxSupply: max, Decimals: uint8(c.R.Intn(19)), IsMintable: mintable, IsBurnable: c.R.Intn(2) == 0, TokenStandard: z})
+	// the list carries no order: the new token may come first
+	if c.R.Intn(2) == 0 {
+		t := cfg.TokenConfig.Tokens
+		t[0], t[len(t)-1] = t[len(t)-1], t[0]
+	}
+	return true
+}
+
 // inconsistentKinds: perturbations after which, BY CONSTRUCTION, the balances the ledger would hold no longer add up to the
 // declared supplies / contract holdings (or a supply exceeds its maximum) — the clause of the property itself, no model
 // involved: such a configuration must be refused. The value says what is wrong.
 var inconsistentKinds = map[string]string{
+	"declare-unheld-mintable-nonzero": "a mintable token declared with a non-zero TotalSupply that no account holds: recorded supply exceeds the balances",
+	"declare-unheld-fixed-nonzero":    "a non-mintable token declared with a non-zero TotalSupply that no account holds: recorded supply exceeds the balances",
+	"unhold-token":                    "an issued token with non-zero TotalSupply whose holders were all removed: recorded supply exceeds the balances",
+	"zero-out-token":                  "an issued token with non-zero TotalSupply whose holders all hold zero: recorded supply exceeds the balances",
 	"balance+1":                  "one balance raised by 1, declared supplies / fusions / stakes unchanged",
 	"balance-1":                  "one balance lowered by 1, declared supplies / fusions / stakes unchanged",
 	"drop-block":                 "an entry with a non-zero balance removed, declared supplies unchanged",
@@ -1013,7 +1094,8 @@ var inconsistentKinds = map[string]string{
 var directedKinds = []string{"drop-plasma-contract-block", "duplicate-user-block", "negative-balance", "supply-above-max",
 	"negative-fusion", "negative-pillar-amount", "negative-swap-entry",
 	"drop-pillar-contract-block", "nil-balance", "duplicate-contract-block", "nil-max-supply", "supply-equals-max", "duplicate-empty-block",
-	"nil-fusion-amount", "nil-pillar-amount", "zero-fusion-and-swap-amounts"}
+	"nil-fusion-amount", "nil-pillar-amount", "zero-fusion-and-swap-amounts",
+	"declare-unheld-mintable-nonzero", "unhold-token", "declare-unheld-mintable-zero", "declare-unheld-fixed-nonzero", "zero-out-token", "declare-unheld-fixed-zero"}
 
 func perturbationByName(name string) perturbation {
 	for _, p := range perturbations {
@@ -1505,4 +1587,101 @@ func init() {
 			prev = cfg
 		}
 	})
+}
+
+// c01AtGenesis: property C01 at momentum 1 of the chain a node starts from an ACCEPTED configuration ("the equality already
+// holds for the genesis state"), read from the started chain only - not from the configuration: for every token the token
+// contract records, recorded TotalSupply = sum of that token's balances over all accounts of the ledger + amounts of
+// unreceived sends (none at genesis, read from the mailboxes all the same) <= MaxSupply; no negative balance; nobody holds a
+// token the contract does not record.
+func c01AtGenesis(c *Ctx, tag string, cfg *genesis.GenesisConfig) {
+	defer func() {
+		if r := recover(); r != nil {
+			c.Fail("C01 at genesis (%s): reading the started chain panicked: %v [%s]", tag, r, encodeCfg(cfg))
+		}
+	}()
+	gen := genesis.NewGenesis(cfg)
+	ch := chain.NewChain(db.NewMemDBManager(db.NewMemDB()), gen)
+	if err := ch.Init(); err != nil {
+		return // reported by monitorAccepted
+	}
+	st := ch.GetFrontierMomentumStore()
+	// all accounts of the ledger: every account with a block in the genesis momentum, every address of the configuration,
+	// every embedded contract
+	seen := map[types.Address]bool{}
+	var addrs []types.Address
+	note := func(a types.Address) {
+		if !seen[a] {
+			seen[a] = true
+			addrs = append(addrs, a)
+		}
+	}
+	for _, h := range ch.GetGenesisMomentum().Content {
+		note(h.Address)
+	}
+	for _, b := range cfg.GenesisBlocks.Blocks {
+		note(b.Address)
+	}
+	for a := range embeddedNames {
+		note(a)
+	}
+	sum := map[types.ZenonTokenStandard]*big.Int{}
+	add := func(z types.ZenonTokenStandard, v *big.Int) {
+		if sum[z] == nil {
+			sum[z] = new(big.Int)
+		}
+		sum[z].Add(sum[z], v)
+	}
+	for _, a := range addrs {
+		bm, err := st.GetAccountStore(a).GetBalanceMap()
+		if err != nil {
+			c.Fail("C01 at genesis (%s): balances of %x: %v", tag, a.Bytes(), err)
+			return
+		}
+		for z, v := range bm {
+			if v.Sign() < 0 {
+				c.Fail("C01 at genesis (%s): account %x holds the negative balance %v of token %x [%s]", tag, a.Bytes(), v, z[:], encodeCfg(cfg))
+			}
+			add(z, v)
+		}
+		pending, _ := st.GetAccountMailbox(a).GetUnreceivedAccountBlockHashes(100000)
+		for _, h := range pending {
+			if b, _ := st.GetAccountBlockByHash(h); b != nil {
+				add(b.TokenStandard, b.Amount)
+			}
+		}
+	}
+	recorded, err := definition.GetTokenInfoList(st.GetAccountStore(types.TokenContract).Storage())
+	if err != nil {
+		c.Fail("C01 at genesis (%s): token list: %v", tag, err)
+		return
+	}
+	known := map[types.ZenonTokenStandard]bool{}
+	for _, t := range recorded {
+		known[t.TokenStandard] = true
+		s := sum[t.TokenStandard]
+		if s == nil {
+			s = new(big.Int)
+		}
+		kind := "fixed"
+		if t.IsMintable {
+			kind = "mintable"
+		}
+		if s.Cmp(t.TotalSupply) != 0 {
+			c.Fail("C01 at genesis (%s): the chain started from an ACCEPTED genesis configuration records TotalSupply %v for the %s token %x (MaxSupply %v), the balances of all %d accounts + unreceived sends add up to %v [%s]", tag, t.TotalSupply, kind, t.TokenStandard[:], t.MaxSupply, len(addrs), s, encodeCfg(cfg))
+		}
+		if t.MaxSupply == nil || t.TotalSupply.Cmp(t.MaxSupply) > 0 {
+			c.Fail("C01 at genesis (%s): recorded TotalSupply %v of token %x exceeds its MaxSupply %v [%s]", tag, t.TotalSupply, t.TokenStandard[:], t.MaxSupply, encodeCfg(cfg))
+		}
+		c.Hit("c01-genesis-token-checked:" + kind)
+		if s.Sign() == 0 {
+			c.Hit("c01-genesis-token-unheld:" + kind)
+		}
+	}
+	for z, v := range sum {
+		if !known[z] && v.Sign() != 0 {
+			c.Fail("C01 at genesis (%s): accounts hold %v of token %x, for which the token contract records no supply [%s]", tag, v, z[:], encodeCfg(cfg))
+		}
+	}
+	c.Hit("c01-genesis-checked")
 }
